@@ -375,6 +375,20 @@ def _str(E, path, fv, args, kwargs, frame):
     return E.to_str(path, args[0])
 
 
+def _bool(E, path, fv, args, kwargs, frame):
+    if not args:
+        return False
+    t = E.truthy(path, args[0])
+    if isinstance(t, bool):
+        return t
+    t = z3.simplify(t)
+    if z3.is_true(t):
+        return True
+    if z3.is_false(t):
+        return False
+    return SBool(t)
+
+
 def _getattr(E, path, fv, args, kwargs, frame):
     if len(args) not in (2, 3):
         E.throw(path, "TypeError", "getattr expected 2 or 3 arguments")
@@ -855,7 +869,7 @@ def _dict_values(E, path, fv, args, kwargs, frame):
 
 
 _TABLE = {
-    "isinstance": _isinstance, "len": _len, "str": _str, "getattr": _getattr, "hasattr": _hasattr,
+    "isinstance": _isinstance, "len": _len, "str": _str, "getattr": _getattr, "hasattr": _hasattr, "bool": _bool,
     "type": _type, "tuple": _tuple, "list": _list, "reversed": _reversed, "iter": _iter, "next": _next,
     "any": _any, "all": _all, "enumerate": _enumerate, "zip": _zip, "repr": _repr, "int": _int, "float": _float, "super": _super,
     "str.replace": _str_replace, "str.upper": _str_case("upper"), "str.lower": _str_case("lower"),
